@@ -14,7 +14,8 @@ KeysAt(hist, t) ==
   LET S == {i \in DOMAIN hist : hist[i].t <= t} IN
   IF S = {} THEN {} ELSE hist[CHOOSE i \in S : \A j \in S : j <= i].keys
 
-(* commit: [et, signer, altered] *)
+(* commit: [et, signer, altered, shape]; shape "ops": a pack with operations, "empty": a commit without operations (what a
+   merge commit is) - the rule is the same for both: every commit by an author with keys in force must be signed *)
 Accept(hist, c) ==
   \/ KeysAt(hist, c.et) = {}
   \/ (c.signer \in KeysAt(hist, c.et) /\ ~c.altered)
